@@ -239,7 +239,7 @@ def rw_R14(text):
     n = 0
     out = text
     pos = 0
-    pat = re.compile(r'\.\s*iter\(\)\s*\.\s*all\(\s*\|\s*(\w+)\s*\|')
+    pat = re.compile(r'\.\s*iter\(\)\s*\.\s*all\(\s*\|\s*(&?)\s*(\w+)\s*\|')
     while True:
         msk = rsx.mask(out)
         m = pat.search(msk, pos)
@@ -250,14 +250,30 @@ def rw_R14(text):
             ch = msk[i - 1]
             if ch.isalnum() or ch in '_.':
                 i -= 1
+            elif ch == ']':
+                # an index / range expression `v[a..b]`: back to its opening bracket
+                d = 0
+                k = i - 1
+                while k >= 0:
+                    if msk[k] == ']':
+                        d += 1
+                    elif msk[k] == '[':
+                        d -= 1
+                        if d == 0:
+                            break
+                    k -= 1
+                if k < 0:
+                    break
+                i = k
             else:
                 break
         recv = msk[i:m.start()].strip()
         po = msk.index('(', msk.index('all', m.start()))
         pc = rsx.match_close(msk, po)
         cond = out[m.end():pc].strip()
-        new = '{ let __s = &(%s); let mut __k: usize = 0; let mut __all = true; while __all && __k < __s.len() { let %s = &__s[__k]; if %s { __k += 1; } else { __all = false; } } __all }' % (
-            recv, m.group(1), cond)
+        # `|e|` binds a reference to the element, `|&e|` the element itself
+        new = '{ let __s = &(%s); let mut __k: usize = 0; let mut __all = true; while __all && __k < __s.len() { let %s = %s__s[__k]; if %s { __k += 1; } else { __all = false; } } __all }' % (
+            recv, m.group(2), '' if m.group(1) else '&', cond)
         old = out[i:pc + 1]
         lost = old.count('\n') - new.count('\n')
         out = out[:i] + new + ('\n' * max(0, lost)) + out[pc + 1:]
@@ -489,6 +505,14 @@ class UnitBuilder:
 
         body = fn.body
         body_line0 = s.line_of(fn.body_open)
+        # presub: a listed literal substitution applied BEFORE the rewrite rules (so that a rule can work on its result)
+        for a, b in opts.get('presub', []):
+            got = find_norm(body, a)
+            if not got:
+                raise BuildError('%s: presub pattern not found: %s' % (where, a))
+            st, en, cnt = got
+            body = body[:st] + b + _keep_lines(body[st:en]) + body[en:]
+            self.hit('S:' + a[:30], where, 1)
         # rewrites (R5 always)
         rules = ['R5'] + [r for r in opts.get('rewrite', {}).keys()]
         for r in rules:
@@ -857,7 +881,7 @@ class UnitBuilder:
                     continue
                 if toks[0] == 'fn':
                     f, path = toks[1], toks[2]
-                    opts = {'rewrite': {}, 'sigsub': [], 'bodysub': []}
+                    opts = {'rewrite': {}, 'sigsub': [], 'bodysub': [], 'presub': []}
                     for t in toks[3:]:
                         if '=' in t:
                             k, v = t.split('=', 1)
@@ -878,8 +902,8 @@ class UnitBuilder:
                                 t2 = d2.split()
                                 opts['rewrite'][t2[1]] = (int(t2[2]) if t2[2] != 'any' else None) if len(t2) > 2 else None
                                 cur = None
-                            elif d2.startswith('sigsub ') or d2.startswith('bodysub '):
-                                mm = re.match(r'(sigsub|bodysub)\s+"(.*)"\s+=>\s+"(.*)"\s*$', d2)
+                            elif d2.startswith('sigsub ') or d2.startswith('bodysub ') or d2.startswith('presub '):
+                                mm = re.match(r'(sigsub|bodysub|presub)\s+"(.*)"\s+=>\s+"(.*)"\s*$', d2)
                                 if not mm:
                                     raise BuildError('%s:%d bad sub directive' % (tname2, L2))
                                 opts[mm.group(1)].append((mm.group(2).replace('\\"', '"'), mm.group(3).replace('\\"', '"')))   # \" inside a part stands for a quote
